@@ -193,6 +193,91 @@ func checkC18(c *Ctx) {
 		c.bad("C18-WALK", "SexpHash.nestedPathGetSetIn", "member under package", walker.Pos(), "no package-aware hash walker: hash members reached through a package are not privacy-checked")
 	}
 
+	// ---- C18-HOP: the name that passes the privacy test is the name of the member that is assigned: both are
+	// taken from the same element of the path. A test hoisted to the first element of the path checks the first hop
+	// below the hash; an assignment two levels down ({p.H.N.d = 53}) then writes a private key unchecked.
+	if hwalker != nil {
+		hset := c.fn("SexpHash.HashSet")
+		mk := c.fn("Zlisp.MakeSymbol")
+		pathIdx := func(v ssa.Value) ssa.Value {
+			for d := 0; d < 6 && v != nil; d++ {
+				switch x := v.(type) {
+				case *ssa.Slice:
+					v = x.X
+				case *ssa.UnOp:
+					if ia, ok := x.X.(*ssa.IndexAddr); ok {
+						return ia.Index
+					}
+					return nil
+				case *ssa.Call:
+					// MakeSymbol(path[i][1:])
+					if mk != nil && x.Call.StaticCallee() == mk && len(x.Call.Args) >= 2 {
+						v = x.Call.Args[1]
+					} else {
+						return nil
+					}
+				case *ssa.MakeInterface:
+					v = x.X
+				default:
+					return nil
+				}
+			}
+			return nil
+		}
+		nSet := 0
+		if hset != nil {
+			for _, site := range callsOf(hwalker, hset) {
+				args := site.Common().Args
+				if len(args) < 2 {
+					continue
+				}
+				keyIdx := pathIdx(args[1])
+				if keyIdx == nil {
+					continue
+				}
+				nSet++
+				same := false
+				eachInstr(hwalker, func(b *ssa.BasicBlock, i int, in ssa.Instruction) {
+					// the test sits under `pkg != nil`, so it precedes the assignment without dominating it
+					sb := site.(ssa.Instruction).Block()
+					if !isPrivCall(in) {
+						return
+					}
+					if b != sb {
+						// reached in the same iteration: without going through the loop's header again
+						header := map[*ssa.BasicBlock]bool{}
+						loop := loopOf(sb)
+						if loop == nil {
+							loop = loopOf(b) // the assignment leaves the loop (it returns); the test may still sit inside it
+						}
+						if loop != nil {
+							for lb := range loop {
+								for _, p := range lb.Preds {
+									if !loop[p] {
+										header[lb] = true
+									}
+								}
+							}
+						}
+						if !reachableAvoiding(b, func(x *ssa.BasicBlock) bool { return header[x] && x != b })[sb] {
+							return
+						}
+					}
+					call := in.(*ssa.Call)
+					if len(call.Call.Args) >= 1 && pathIdx(call.Call.Args[0]) == keyIdx {
+						same = true
+					}
+				})
+				c.check(same, "C18-HOP", "SexpHash.nestedPathGetSetIn", "privacy test on the hop that is assigned", site.Pos(),
+					"the path element handed to errIfPrivate is the one whose name is assigned",
+					"the member assigned is named by one element of the path and the privacy test that precedes it looks at another (or at none): an assignment two or more levels into a hash of a package writes a lower-case key that the test never saw")
+			}
+		}
+		if nSet == 0 {
+			c.undecided("C18-HOP", "SexpHash.nestedPathGetSetIn", "assignment", hwalker.Pos(), "no HashSet keyed by a path element found in the hash walker")
+		}
+	}
+
 	// ---- C18-CASE
 	{
 		var isUpper *ssa.Call
